@@ -430,6 +430,64 @@ Definition wf_table (T : table) : bool :=
   && forallb (fun k => mem_str k (map fst (t_defaults T))) (fixed ++ srcs ++ dsts).
 
 (* ------------------------------------------------------------------ *)
+(* several descriptions built, mutated and normalised one after the other *)
+
+(* list.append(e)  /  dict[key] = e  on the value of an attribute *)
+Definition app_val (v : val) (key : string) (e : atom) : val :=
+  match v with
+  | VL l => VL (l ++ [e])
+  | VD l => VD (set key e l)
+  | VA a => VA a
+  end.
+
+Inductive dop :=
+| DConstruct (i : nat) (x : descr)                       (* slot i := Class(from_dict=x) *)
+| DVerify    (i : nat)                                   (* slot i .verify() *)
+| DAppend    (i : nat) (k key : string) (e : atom)       (* the user mutates attribute k of slot i *)
+| DForeign   (i : nat).                                  (* a mutation of something that is NOT the description:
+                                                            the constructor's input after verify(), the result of as_dict() *)
+
+Definition op_slot (o : dop) : nat :=
+  match o with DConstruct i _ | DVerify i | DAppend i _ _ _ | DForeign i => i end.
+
+Definition dstore := list (nat * descr).
+
+Fixpoint slot_get (i : nat) (st : dstore) : option descr :=
+  match st with
+  | [] => None
+  | (j, d) :: r => if Nat.eqb i j then Some d else slot_get i r
+  end.
+
+Fixpoint slot_set (i : nat) (d : descr) (st : dstore) : dstore :=
+  match st with
+  | [] => [(i, d)]
+  | (j, d') :: r => if Nat.eqb i j then (i, d) :: r else (j, d') :: slot_set i d r
+  end.
+
+(* every description has its own state: no operation reads or writes another slot, and
+   there is no state outside the slots (no shared defaults) *)
+Definition dstep (mk : descr -> descr) (vf : descr -> perr + descr) (st : dstore) (o : dop) : dstore :=
+  match o with
+  | DConstruct i x => slot_set i (mk x) st
+  | DVerify i =>
+      match slot_get i st with
+      | Some d => match vf d with inr v => slot_set i v st | inl _ => st end
+      | None => st
+      end
+  | DAppend i k key e =>
+      match slot_get i st with
+      | Some d => slot_set i (set k (app_val (getv k d) key e) d) st
+      | None => st
+      end
+  | DForeign _ => st
+  end.
+
+Definition drun (mk : descr -> descr) (vf : descr -> perr + descr) (ops : list dop) (st : dstore) : dstore :=
+  fold_left (dstep mk vf) ops st.
+
+Definition touches (i : nat) (o : dop) : bool := Nat.eqb (op_slot o) i.
+
+(* ------------------------------------------------------------------ *)
 (* slots                                                               *)
 
 (* how the `cores` / `gpus` list of a slot is written; occupations are kept
